@@ -1,8 +1,9 @@
 #!/bin/bash
-# Creates /verif/.venv: an overlay over /venv (repo deps, numba, numpy) plus z3-solver and cvc5
+# Creates .venv next to this script (normally /verif/.venv): an overlay over /venv (repo deps, numba, numpy) plus z3-solver and cvc5
 # from the offline wheelhouse. Idempotent; safe to call from every check.
 set -e
-V=/verif/.venv
+HERE="$(cd "$(dirname "$(readlink -f "$0")")" && pwd -P)"
+V="$HERE/.venv"
 if [ -x "$V/bin/python" ] && "$V/bin/python" -c "import z3, numba, moptipyapps" >/dev/null 2>&1; then
   exit 0
 fi
@@ -17,4 +18,4 @@ fi
   echo "import site; site.addsitedir('/venv/lib/python3.12/site-packages')" > "$SP/_base.pth"
   PIP_NO_INDEX=1 "$V/bin/pip" install -q --no-index --no-deps --find-links /opt/veriftools/wheels z3-solver cvc5 >/dev/null
   "$V/bin/python" -c "import z3, cvc5, numba, moptipyapps; print('verif venv ok: z3', z3.get_version_string())"
-) 9>/verif/.venv.lock
+) 9>"$HERE/.venv.lock"
